@@ -388,6 +388,9 @@ def chunk_worker(args):
                 res["t2"].append({"case": line, "impl": il, "model": "D=%s R=%s" % (mp["D"], mp["R"])})
         # T3
         why = t3_verdict(kind, sb, a, b, ip["D"], ip["R"], W)
+        if why is None and ip.get("F", "1") != "1":
+            why = ("formatted through a placeholder with a precision / width / alignment ({:.1}, {:6}, {:>9}, {:*^4.2}) the snippet "
+                   "differs from what {} prints (numbers, texts or markers are clipped or padded)")
         if why is not None:
             # a failure belongs to a finding class iff the case satisfies the class's classifier AND the model
             # (which has that deviation built in) predicts the real output exactly; anything else is unmodelled
